@@ -17,6 +17,10 @@
 (*   ATAsyncCommit   (C11)       commit only deletes undo logs             *)
 (*   TCCBranch/Fence (C05, C06)  try/confirm/cancel at most once, not      *)
 (*                               both, empty rollback + anti-suspension    *)
+(*   XABranch.tla    (C17)       an XA branch is prepared before phase one *)
+(*                               reports success, a failed phase one is    *)
+(*                               rolled back AND surfaces as an error,     *)
+(*                               phase two reaches exactly its own branch  *)
 (*   Inbound/Rpc     (C14, C15)  phase-two requests are answered           *)
 (*                               truthfully (duplicates and losses are the *)
 (*                               environment's here)                       *)
@@ -50,7 +54,9 @@ CONSTANTS
   OblLockCover,      \* C03: every written row is named in the registration
   OblDirtyRefused,   \* C09: a rollback refuses rows somebody else has changed
   OblIdempotent,     \* C10: a repeated rollback does nothing
-  OblFence           \* C06: confirm/cancel at most once and never both; empty rollback suspends
+  OblFence,          \* C06: confirm/cancel at most once and never both; empty rollback suspends
+  AllowXA,           \* BOOLEAN: XA branches take part
+  OblXATruthful      \* C17: a phase one that failed (branch rolled back in the database) surfaces as an error
 
 NoG == 0
 Foreign == -1   \* content written by somebody outside any global transaction
@@ -73,9 +79,13 @@ VARIABLES
   \* ---- network: phase-two deliveries the coordinator has issued and the client has not processed yet
   net,        \* bag as set of [g, i, kind, n] with n the copy number
   dups,       \* duplications used so far
-  nforeign    \* foreign writes so far
+  nforeign,   \* foreign writes so far
+  \* ---- XA
+  xa,         \* [G, branch index] -> "none" | "prepared" | "committed" | "rolledback": the branch in its database
+  p1err       \* G -> BOOLEAN: some statement of the business callback returned an error
 
-vars == <<gst, branches, lock, val, undo, before, fence, eff, outcome, sent, net, dups, nforeign>>
+xvars == <<xa, p1err>>
+vars == <<gst, branches, lock, val, undo, before, fence, eff, outcome, sent, net, dups, nforeign, xa, p1err>>
 
 BIdx == 1..MaxBranches
 Slots == G \X BIdx
@@ -92,6 +102,8 @@ Init ==
   /\ outcome = [g \in G |-> "none"]
   /\ sent = [g \in G |-> {}]
   /\ net = {} /\ dups = 0 /\ nforeign = 0
+  /\ xa = [s \in Slots |-> "none"]
+  /\ p1err = [g \in G |-> FALSE]
 
 -----------------------------------------------------------------------------
 (* TM *)
@@ -105,6 +117,7 @@ Begin(g) ==
 Business(g, o) ==
   /\ gst[g] \in {"begun", "rollbacking", "rollbacked"}   \* the TM does not know about a timeout rollback
   /\ outcome[g] = "none" /\ o \in {"nil", "err"}
+  /\ p1err[g] => o = "err"                               \* an honest business callback does not hide a failed statement
   /\ outcome' = [outcome EXCEPT ![g] = o]
   /\ UNCHANGED <<gst, branches, lock, val, undo, before, fence, eff, sent, net, dups, nforeign>>
 
@@ -275,15 +288,46 @@ Close(g) ==
   /\ lock' = [r \in Rows |-> IF lock[r] = g THEN NoG ELSE lock[r]]
   /\ UNCHANGED <<branches, val, undo, before, fence, eff, outcome, sent, net, dups, nforeign>>
 
+-----------------------------------------------------------------------------
+(* XA (C17): phase one = XA START .. DML .. XA END, XA PREPARE inside the statement (autocommit use) or at   *)
+(* tx.Commit; phase two = XA COMMIT / XA ROLLBACK of exactly that branch, idempotent under redelivery         *)
+
+\* ok = FALSE: XA END / XA PREPARE (or a statement) failed; the client rolls the branch back in the database
+XABranch(g, ok) ==
+  /\ AllowXA /\ gst[g] = "begun" /\ outcome[g] = "none"
+  /\ Len(branches[g]) < MaxBranches
+  /\ LET i == Len(branches[g]) + 1 IN
+     /\ branches' = [branches EXCEPT ![g] = Append(@, [kind |-> "XA", rows |-> {}, act |-> "",
+                                                        st |-> IF ok \/ ~OblXATruthful THEN "p1done" ELSE "rollbacked"])]
+     /\ xa' = [xa EXCEPT ![<<g, i>>] = IF ok THEN "prepared" ELSE "rolledback"]
+     \* C17: the failure reaches the caller (and is reported to the coordinator); without the obligation it is swallowed
+     /\ p1err' = [p1err EXCEPT ![g] = @ \/ (~ok /\ OblXATruthful)]
+  /\ UNCHANGED <<gst, lock, val, undo, before, fence, eff, outcome, sent, net, dups, nforeign>>
+
+XAPhaseTwo(m) ==
+  /\ m \in net /\ branches[m.g][m.i].kind = "XA"
+  /\ LET s == <<m.g, m.i>> IN
+     /\ net' = net \ {m}
+     /\ IF m.kind = "commit"
+        THEN CASE xa[s] = "prepared"  -> xa' = [xa EXCEPT ![s] = "committed"] /\ branches' = SetBranch(m.g, m.i, "committed")
+               [] xa[s] = "committed" -> UNCHANGED xa /\ branches' = SetBranch(m.g, m.i, "committed")     \* redelivery
+               [] OTHER               -> UNCHANGED <<xa, branches>>     \* XAER_NOTA: no truthful 'committed' is possible
+        ELSE /\ xa' = [xa EXCEPT ![s] = IF @ = "prepared" THEN "rolledback" ELSE @]
+             /\ branches' = IF xa[s] # "committed" THEN SetBranch(m.g, m.i, "rollbacked") ELSE branches
+  /\ UNCHANGED <<gst, lock, val, undo, before, fence, eff, outcome, sent, dups, nforeign, p1err>>
+
 Next ==
-  \/ \E g \in G : Begin(g) \/ Timeout(g) \/ Close(g)
-  \/ \E g \in G, o \in {"nil", "err"} : Business(g, o)
-  \/ \E g \in G, d \in {"commit", "rollback"} : Decide(g, d)
-  \/ \E g \in G, rows \in SUBSET Rows, named \in SUBSET Rows : ATBranch(g, rows, named)
-  \/ \E g \in G, a \in Acts : TCCBranch(g, a)
-  \/ \E g \in G, i \in BIdx : Try(g, i) \/ Issue(g, i)
-  \/ \E r \in Rows : ForeignWrite(r)
-  \/ \E m \in net : Duplicate(m) \/ Lose(m) \/ ATCommit(m) \/ ATRollback(m) \/ TCCPhaseTwo(m)
+  \/ /\ UNCHANGED xvars
+     /\ \/ \E g \in G : Begin(g) \/ Timeout(g) \/ Close(g)
+        \/ \E g \in G, o \in {"nil", "err"} : Business(g, o)
+        \/ \E g \in G, d \in {"commit", "rollback"} : Decide(g, d)
+        \/ \E g \in G, rows \in SUBSET Rows, named \in SUBSET Rows : ATBranch(g, rows, named)
+        \/ \E g \in G, a \in Acts : TCCBranch(g, a)
+        \/ \E g \in G, i \in BIdx : Try(g, i) \/ Issue(g, i)
+        \/ \E r \in Rows : ForeignWrite(r)
+        \/ \E m \in net : Duplicate(m) \/ Lose(m) \/ ATCommit(m) \/ ATRollback(m) \/ TCCPhaseTwo(m)
+  \/ \E g \in G, ok \in BOOLEAN : XABranch(g, ok)
+  \/ \E m \in net : XAPhaseTwo(m)
 
 Spec == Init /\ [][Next]_vars
 
@@ -313,6 +357,16 @@ TCCAtomic ==
           => (e.confirm = 1 <=> gst[g] = "committed") /\ (e.cancel = 1 <=> gst[g] = "rollbacked")
     \* a branch whose try never ran has no business effect at all (empty rollback)
     /\ e.try = 0 => e.confirm = 0 /\ e.cancel = 0
+
+\* Atomicity, XA part: the work of a branch is never lost under a commit decision, never kept under a rollback
+XAAtomic ==
+  \A g \in G, i \in BIdx :
+    (i <= Len(branches[g]) /\ branches[g][i].kind = "XA") =>
+      LET x == xa[<<g, i>>] IN
+      /\ gst[g] \in {"committing", "committed"} => x \in {"prepared", "committed"}
+      /\ gst[g] = "committed" => x = "committed"
+      /\ gst[g] = "rollbacked" => x = "rolledback"
+      /\ x = "committed" => gst[g] \in {"committing", "committed"}
 
 \* the coordinator's decision follows the business outcome (unless it timed the transaction out)
 DecisionTruthful ==
